@@ -259,6 +259,23 @@ def concrete_box_samples(args):
         hi = [p['bounds'][1] for p in prob.parameters]
         mid = [(a + b) / 2 for a, b in zip(lo, hi)]
         pts = [lo, hi, mid, [a + 0.25 * (b - a) for a, b in zip(lo, hi)], [a + 0.9 * (b - a) for a, b in zip(lo, hi)]]
+        # points with TIED coordinates (all coordinates equal, or all but the first): every coordinate value of the
+        # documented optimum and a few box fractions, clipped into the box
+        coords = getattr(prob, 'global_optimum_coords', None)
+        vals = [float(c) for c in coords] if isinstance(coords, (list, tuple)) and not isinstance(coords[0], (list, tuple)) else []
+        vals += [math.pi / 2, 2.2029, 1.0, 0.0]
+        vals = list(dict.fromkeys(vals))                     # distinct values, first occurrence order
+        if len(vals) > 7:
+            vals = sorted(vals)[:3] + sorted(vals)[-4:]
+        for v in vals:
+            tied = [min(max(v, a), b) for a, b in zip(lo, hi)]
+            pts.append(tied)
+            if len(tied) > 1:
+                for u in vals:
+                    if u != v:
+                        pts.append([min(max(u, lo[0]), hi[0])] + tied[1:])
+        opt = getattr(prob, 'global_optimum', None)
+        direction = _direction(prob)
         for conv in (float, np.float64):
             for p in pts:
                 r = prob.evaluate(Individual([conv(v) for v in p]))
@@ -266,6 +283,10 @@ def concrete_box_samples(args):
                 if ok and not isinstance(r[0], core.SNum):
                     ok = math.isfinite(float(r[0]))
                 ctx.check('finite-real-cost(%s)' % conv.__name__, not ok)
+                if ok and opt is not None and not isinstance(opt, (list, tuple)) and 'XinSheYang3' not in name:
+                    v = float(r[0])
+                    ctx.check('sample-does-not-beat-the-documented-optimum(%s)' % conv.__name__,
+                              (v < opt - TOL) if direction == 'min' else (v > opt + TOL))
     return body
 
 
